@@ -281,6 +281,7 @@ type c17Case struct {
 	Data    string   `json:"data"`
 	Entry   string   `json:"entry"`
 	Ops     []string `json:"ops"`
+	Debug   bool     `json:"debug"`
 }
 
 var c17Entries = []string{"Validate", "ValidateWithConfiguration", "CompileProfile", "Compile+ValidateCompiled", "Compile+ValidateCompiledWithConfiguration"}
@@ -311,7 +312,7 @@ func byteMutate(t *rapid.T, s string) string {
 
 func genC17(t *rapid.T) c17Case {
 	loadFixtures()
-	c := c17Case{Entry: pick(t, c17Entries, "entry")}
+	c := c17Case{Entry: pick(t, c17Entries, "entry"), Debug: rapid.IntRange(0, 3).Draw(t, "debug") == 0}
 	// profile (half of the cases keep the profile valid so that mutated data reaches indexing and evaluation)
 	pk := rapid.IntRange(0, 9).Draw(t, "pkind")
 	if rapid.Bool().Draw(t, "keepProfile") {
@@ -370,11 +371,13 @@ func decideC17(c c17Case) ev.Verdict {
 	compiled := true
 	switch c.Entry {
 	case "Validate":
-		res = guard(func() (string, error) { return pkg.Validate(c.Profile, c.Data, false, nil) })
+		res = guard(func() (string, error) { return pkg.Validate(c.Profile, c.Data, c.Debug, nil) })
 	case "ValidateWithConfiguration":
-		res = validateFixed(c.Profile, c.Data)
+		res = guard(func() (string, error) {
+			return pkg.ValidateWithConfiguration(c.Profile, c.Data, c.Debug, nil, clock0, config.DefaultReportConfiguration())
+		})
 	default:
-		q, cc := compileProfile(c.Profile)
+		q, cc := compileProfileDebug(c.Profile, c.Debug)
 		if cc.Panic != "" {
 			return ev.Violation("panic@"+panicSite(cc.Stack), "CompileProfile panicked: %s\nprofile:\n%s", trunc(cc.Panic, 300), trunc(c.Profile, 1500))
 		}
@@ -389,10 +392,10 @@ func decideC17(c c17Case) ev.Verdict {
 			return ev.Verdict{OK: true, NonTrivial: cc.Err != nil, Labels: append([]string{"entry:" + c.Entry, lab}, c.Ops...)}
 		}
 		if c.Entry == "Compile+ValidateCompiled" {
-			res = guard(func() (string, error) { return pkg.ValidateCompiled(q, c.Data, false, nil) })
+			res = guard(func() (string, error) { return pkg.ValidateCompiled(q, c.Data, c.Debug, nil) })
 		} else {
 			res = guard(func() (string, error) {
-				return pkg.ValidateCompiledWithConfiguration(q, c.Data, false, nil, clock0, config.DefaultReportConfiguration())
+				return pkg.ValidateCompiledWithConfiguration(q, c.Data, c.Debug, nil, clock0, config.DefaultReportConfiguration())
 			})
 		}
 	}
